@@ -26,6 +26,9 @@ type Loop struct {
 	ExitsOK  bool // every exit edge leaves from the header (no break)
 	whyNoIV  string
 	resolved bool
+	// Canon is set for go/ssa's range-with-index form, whose header is `p = φ(-1, n); n = p + 1; if n < len …`: the value
+	// the body uses is n, so the KIndVar term denotes n (Init, TestOff describe n), and the phi itself is n - Step.
+	Canon ssa.Value
 }
 
 // ID renders a short stable loop identifier (function-relative header index).
